@@ -404,7 +404,7 @@ def build(spec, shape, ctxk=None):
             dom = "any"
         # the cubic inverse drops the cubic term below quadratic_threshold (declared approximation): its reported
         # log-det is exact at the returned point, but the returned point is approximate
-        extra_ld = 1e-3 * int(np.prod(shape)) if b.family == "cub" else 0.0
+        extra_ld = 1e-6 * int(np.prod(shape)) if b.family == "cub" else 0.0
         return Built(m, b.out_shape, out_shape=b.in_shape, dom=dom, rng=rng, parts=[b], A_out=b.A_out, A_ld=b.A_ld + extra_ld, A_inv=b.A_inv,
                      smooth=b.smooth, uses_ctx=b.uses_ctx, umnn=b.umnn, affine=b.affine, elementwise=b.elementwise,
                      inv_via_forward=False, tags=["inverse"] + b.tags, batch_coupled_in_train=b.batch_coupled_in_train,
@@ -601,9 +601,9 @@ def resolve_A_inv(built):
     if isinstance(a, tuple):
         if a[0] == "cubic":
             _, lo, hi, minw = a
-            return 1e-3 * max(1.0, hi - lo)  # quadratic_threshold: cubic term dropped when below 1e-3 of the bin height
+            return 1e-7 * max(1.0, hi - lo)  # closed-form root + 2 Newton steps (the 1e-3 quadratic_threshold shortcut is polished away)
         if a[0] == "cubic_w":
-            return 1e-3 * max(1.0, a[1])
+            return 1e-7 * max(1.0, a[1])
     if built.parts and len(built.parts) == 1 and "inverse" in built.tags:
         return resolve_A_inv(built.parts[0])
     return float(a)
